@@ -222,7 +222,9 @@ var SQLPrefixes = []string{"\xe9' ", "\xff\" ", "1' ", "a\" ", "\\' ", "1'/**/",
 // after a self-closing slash, inside an attribute list ...).
 var HTMLPrefixes = []string{"</a ", "</a b=\"x\"", "</a b='x' ", "<a b=\"x\"", "<a b=x ", "<a/", "</a/", "<a b", "</a b", "<!--x-->", "</>", "</a>",
 	"</a x='", "</a x=\"", "<a x=`", "</a b=x", "\xef\xbb\xbf",
-	"</a b=\"x\">", "</a b='x'>", "</a >", "</a x='>", "</a x=\">", "</a x=`>"}
+	"</a b=\"x\">", "</a b='x'>", "</a >", "</a x='>", "</a x=\">", "</a x=`>",
+	// leading blanks / NULs and then the quote that closes the value the context starts in
+	" '", " \"", " `", "\x00'", "\n\"", "\t`", " ", "\x00"}
 
 func rep(u string, k int) string { return strings.Repeat(u, k) }
 
@@ -492,4 +494,34 @@ func AttrFormsHTML() []string {
 		}
 	}
 	return out
+}
+
+// PairSweepHTML / PairSweepSQL: the byte-sweep templates with every ordered PAIR of blank / control bytes at the
+// swept position (CR LF, NUL LF, ... : a normalisation of one two-byte sequence is invisible to single-byte sweeps).
+var pairBytes = []string{"\t", "\n", "\v", "\f", "\r", " ", "\x00", "\xa0", "\x85"}
+
+func pairSweep(tmpl []string, all bool) []string {
+	var out []string
+	for _, t := range tmpl {
+		for _, a := range pairBytes {
+			for _, b := range pairBytes {
+				if all {
+					out = append(out, strings.ReplaceAll(t, "\x01", a+b))
+				} else {
+					out = append(out, strings.Replace(t, "\x01", a+b, 1))
+				}
+			}
+		}
+	}
+	return out
+}
+
+func PairSweepHTML() []string {
+	return pairSweep([]string{"<a href=java\x01script:x>", "<a href=\"ja\x01vascript:x\">", "<a href='\x01javascript:x'>", "<a\x01onerror=x>", "<a onerror\x01=x>", "<a onerror=\x01x>", "<a x=y\x01onerror=z>",
+		"<a x='y'\x01onerror=z>", "<\x01script>", "<script\x01>", "<!\x01doctype>", "<!doctype\x01>", "x\x01'onerror=y", "\x01'onerror=y", "<a href=da\x01ta:x>", "<a style\x01=x>", "</a\x01><script>"}, false)
+}
+
+func PairSweepSQL() []string {
+	return pairSweep([]string{"1\x01or 1=1", "1 or\x011=1", "1' or\x01'1'='1", "1 union\x01select 1", "1 --\x01x", "1 --x\x01union select 1", "1 #x\x01union select 1", "1;\x01drop table t", "1 or 1=1 --\x01",
+		"1 /*x*/\x01or 1", "@a\x01 or 1", "1 in\x01(1)", "1 like\x01(1)"}, true)
 }
